@@ -67,7 +67,13 @@ def sortBy (le : Color → Color → Bool) : List Color → List Color
 def hasConflict (l : List Color) : Bool :=
   l.any fun c => l.any fun d => c.idx.isSome && c.idx == d.idx && c != d
 
-def maxIdxP1 (l : List Color) : Nat := l.foldl (fun acc c => match c.idx with | some k => max acc (k+1) | none => acc) 0
+def maxIdxStep (acc : Nat) (c : Color) : Nat :=
+  match c.idx with
+  | some k => max acc (k+1)
+  | none => acc
+
+/-- `max(indexed_colors, default=-1) + 1` -/
+def maxIdxP1 (l : List Color) : Nat := l.foldl maxIdxStep 0
 
 /-- `all_colors = set(colors)`, replaced by `{black}` when empty -/
 def allColors (colors : List Color) : List Color :=
